@@ -179,8 +179,9 @@ func checkC18(c c18Case) (faults int, err error) {
 	}
 	p2, err := parseOne("c18-printed", t1)
 	if err != nil {
-		// whether the output parses is C05's business
-		return 0, nil
+		// (that the output denotes the same program is C05's business; but
+		// output that is not accepted at all cannot be printed again)
+		return 0, fmt.Errorf("the output cannot be re-parsed, so it has no second printing (config %d %+v): %v\nsrc:   %q\nfirst: %q", c.Cfg, config(c.Cfg), err, c.Src, t1)
 	}
 	t2, err := fprint(c.Cfg, p2)
 	if err != nil {
